@@ -10,7 +10,7 @@ from .. import build, common
 RULE = ("/repo/fclones/src/semaphore.rs is #[path]-included verbatim into the crate /verif/miri and driven through a scenario "
         "matrix (threads 2..4 x acquire/release pairs 1..3 x initial/external permits {1,2,0+1,0+2,-1+2,1+1} x guard dropped "
         "by the acquiring or by another thread x bounded spurious notify_all on/off) under Miri's seeded scheduler "
-        "(-Zmiri-many-seeds, preemption rates 0, 0.01, 0.03) with monitors: shadow holder counter <= permits, count "
+        "(-Zmiri-many-seeds, preemption rates 0.01, 0.03, 0.1; thorough also 0 and 0.005) with monitors: shadow holder counter <= permits, count "
         "invariant read under the semaphore's own lock, final count == initial + released, all acquisitions completed, "
         "Miri's deadlock / data-race / UB detectors; plus a native stress run of the same monitors (2..64 threads). "
         "evaluations = scenario executions; non-trivial = distinct (scenario, event-order fingerprint) pairs, i.e. "
@@ -28,13 +28,13 @@ def miri_env(flags):
     return env
 
 
-def run_miri(mode, rate, seeds, timeout, single_seed=None):
+def run_miri(mode, rate, seeds, timeout, single_seed=None, filt=None):
     if single_seed is None:
         flags = "-Zmiri-many-seeds=0..%d -Zmiri-preemption-rate=%s" % (seeds, rate)
     else:
         flags = "-Zmiri-seed=%d -Zmiri-preemption-rate=%s" % (single_seed, rate)
     try:
-        p = subprocess.run(["cargo", "+nightly", "miri", "run", "--offline", "--", mode], cwd=MIRI_DIR,
+        p = subprocess.run(["cargo", "+nightly", "miri", "run", "--offline", "--", mode] + ([filt] if filt else []), cwd=MIRI_DIR,
                            env=miri_env(flags), stdout=subprocess.PIPE, stderr=subprocess.PIPE, timeout=timeout)
         return p.returncode, p.stdout.decode("utf-8", "replace"), p.stderr.decode("utf-8", "replace"), False
     except subprocess.TimeoutExpired as e:
@@ -193,16 +193,16 @@ def main(tier, seed, cases=None):
                        ["Miri's scheduler and std's Mutex/Condvar model", "exploration, not exhaustion, of interleavings",
                         "spurious wake-ups are modelled by a bounded number of notify_all calls through hook H4"])
     mode = "quick" if tier == "quick" else "all"
-    seeds = cases or (8 if tier == "quick" else 96)
-    rates = ["0", "0.01", "0.03"]
+    seeds = cases or (16 if tier == "quick" else 96)
+    rates = ["0.01", "0.03", "0.1"] if tier == "quick" else ["0", "0.005", "0.01", "0.03", "0.1"]
     per_scenario = {}
     import concurrent.futures as cf
     t_budget = 900 if tier == "quick" else 7200
-    # the first invocation builds; run it alone, then the other rates in parallel
+    # the first invocation builds: one seed and a filter that selects no scenario; then the rates run side by side
+    run_miri(mode, rates[0], 0, 900, single_seed=0, filt="no-such-scenario")
     results = {}
-    results[rates[0]] = run_miri(mode, rates[0], seeds, t_budget)
-    with cf.ThreadPoolExecutor(max_workers=2) as ex:
-        futs = {r: ex.submit(run_miri, mode, r, seeds, t_budget) for r in rates[1:]}
+    with cf.ThreadPoolExecutor(max_workers=3 if tier == "quick" else 2) as ex:
+        futs = {r: ex.submit(run_miri, mode, r, seeds, t_budget) for r in rates}
         for r, f in futs.items():
             results[r] = f.result()
     executions = 0
